@@ -57,6 +57,11 @@ static const scen_t scens[] = {
     { V_TLS12, KX_PSK, 0, 0, 0, 0, 0, "tls12-psk-client-hangs-up-behind-its-finished", 5 },
     { V_TLS12, KX_RSA, TLS_RSA_WITH_AES_128_GCM_SHA256, 1, 0, 0, 0, "tls12-rsa-gcm-clientauth-client-hangs-up-behind-its-finished", 5 },
     { V_TLS13, KX_13_PSK, 0, 0, 0, 0, 0, "tls13-psk-client-hangs-up-behind-its-finished", 5 },
+    /* the client's second flight is preceded by the compatibility ChangeCipherSpec other TLS 1.3 stacks send: in the reference
+       run it shares a receive call with what follows (Finished, or the client's fatal alert in the failing scenario) */
+    { V_TLS13, KX_13_PSK, 0, 0, 0, 0, 0, "tls13-psk-full-compat-ccs", 6 },
+    { V_TLS13, KX_13_RSA, 0, 0, 0, 1, 0, "tls13-rsa-badcert-failing-compat-ccs", 6 },
+    { V_TLS13, KX_13_ECDSA, 0, 1, 0, 0, 0, "tls13-ecdsa-clientauth-compat-ccs", 6 },
 };
 #define NSCEN ((int) (sizeof(scens) / sizeof(scens[0])))
 
@@ -187,7 +192,7 @@ static int deliver_dir(world_t *w, run_t *R, int d, const sched_t *sc)
     return n;
 }
 
-static int pipeline_on, app_written[2], say_and_close, closer, hangup_after_burst, bursts[2];
+static int pipeline_on, app_written[2], say_and_close, closer, hangup_after_burst, bursts[2], compat_ccs;
 static void app_messages(world_t *w, int d)
 {
     static unsigned char msg[40100];
@@ -220,6 +225,16 @@ static int quiesce(world_t *w, run_t *R, const sched_t *sc)
             if (R->out[d].len > before)
             {
                 bursts[d]++;
+                if (compat_ccs && d == 0 && bursts[0] == 2)
+                {
+                    /* the middlebox-compatibility ChangeCipherSpec other TLS 1.3 stacks send in front of their second flight
+                       (RFC 8446 D.4; the receiver must ignore it): inserted at the start of this burst */
+                    static const unsigned char ccs[6] = { 20, 3, 3, 0, 1, 1 };
+                    size_t tail = R->out[d].len - before;
+                    buf_add(&R->out[d], ccs, 6);
+                    memmove(R->out[d].p + before + 6, R->out[d].p + before, tail);
+                    memcpy(R->out[d].p + before, ccs, 6);
+                }
             }
             if (hangup_after_burst && d == 0 && bursts[0] == hangup_after_burst && closer < 0 && w->s[0].err_rc >= 0)
             {
@@ -296,10 +311,11 @@ static void run_scenario(int si, const sched_t *sc, obs_t *o)
         buf_clear(&R.out[0]); buf_clear(&R.out[1]);
         R.fed[0] = R.fed[1] = 0;
     }
-    pipeline_on = S->pipeline == 1 || S->pipeline >= 3;
+    pipeline_on = S->pipeline == 1 || (S->pipeline >= 3 && S->pipeline <= 5);
     say_and_close = S->pipeline == 3 ? 1 : S->pipeline == 4 ? 2 : 0;
     closer = -1;
     hangup_after_burst = S->pipeline == 5 ? 2 : 0;
+    compat_ccs = S->pipeline == 6;
     bursts[0] = bursts[1] = 0;
     app_written[0] = app_written[1] = 0;
     if (S->pipeline == 2)
@@ -333,7 +349,7 @@ static void run_scenario(int si, const sched_t *sc, obs_t *o)
         o->entropy_draws = env_entropy_draws - e0;
         o->entropy_bytes = env_entropy_bytes - b0;
     }
-    else if (S->pipeline)
+    else if (S->pipeline && S->pipeline != 6)
     {
         uint64_t e0 = env_entropy_draws, b0 = env_entropy_bytes;
         quiesce(&w, &R, sc);
